@@ -137,6 +137,9 @@ func c04GenFile(r *Rng, idx int, le string) c04File {
 	emit(nx(), fmt.Sprintf("for %si = 1, %salpha do print(%si, %sbeta) end", pre, pre, pre, pre))
 	emit(nx(), fmt.Sprintf("%sTab = {} function %sTab.method(%sself2, %sarg) return %sarg end", pre, pre, pre, pre, pre))
 	emit(nx(), fmt.Sprintf("print(%sTab.method(%sTab, %salpha), %sDup(1, 2))", pre, pre, pre, pre))
+	// Lua 5.4 attributes on the first and on later names of a declaration list
+	emit(nx(), fmt.Sprintf("local %sca <const>, %scb <const>, %scc, %scd<close> = 1, 2, 3, nil", pre, pre, pre, pre))
+	emit(nx(), fmt.Sprintf("print(%sca, %scb, %scc, %scd)", pre, pre, pre, pre))
 	// strings and comments inside the statement itself, between identifiers
 	emit(nx(), fmt.Sprintf("local %sinl = \"é\\t😀\" .. %salpha .. [[x]] .. %sbeta --[[ 中 ]] .. %sGlob.field", pre, pre, pre, pre))
 	emit(nx(), fmt.Sprintf("print(%sinl, '\\'', %salpha, \"\\u{1F600}\", %sbeta, [==[ ]] ]==], %sinl)", pre, pre, pre, pre))
